@@ -22,7 +22,7 @@ POOL = [1, 4, 5, 6, 7]
 
 def case_strategy():
     from hypothesis import strategies as st
-    kd = st.tuples(st.sampled_from(['signing', 'signing', 'encryption', None]), st.sampled_from(POOL)).map(list)
+    kd = st.tuples(st.sampled_from(['signing', 'signing', 'encryption', None]), st.sampled_from(POOL + ['keyname'])).map(list)
     fed = st.one_of(st.lists(st.lists(kd, max_size=3), min_size=2, max_size=4), st.lists(st.lists(kd, max_size=3), min_size=2, max_size=4), st.just([]))   # [] = no metadata source at all
     msg = st.fixed_dictionaries({'issuer': st.integers(0, 4), 'key': st.sampled_from(POOL), 'keyinfo': st.sampled_from(['none', 'signer-cert', 'other-cert', 'signer-rsa', 'other-rsa', 'signer-cert']),
                                  'other': st.sampled_from(POOL), 'level': st.sampled_from(['response', 'assertion', 'both']), 'alg': st.sampled_from(['sha1', 'sha256']),
@@ -68,14 +68,14 @@ def run(case):
         issuer = IDPS[m['issuer']] if m['issuer'] < len(fed) else UNKNOWN
         trusted = []
         if m['issuer'] < len(fed):
-            trusted = [k for u, k in fed[m['issuer']] if u in ('signing', None)]
+            trusted = [k for u, k in fed[m['issuer']] if u in ('signing', None) and k != 'keyname']
         ki = {'none': None, 'signer-cert': ('x509', world.cert_body(m['key'])), 'other-cert': ('x509', world.cert_body(m['other'])),
               'signer-rsa': build.rsa_keyvalue(m['key']), 'other-rsa': build.rsa_keyvalue(m['other'])}[m['keyinfo']]
         r, a = build.standard(now, idp_entity=issuer)
         # the Response may name another entity as its Issuer than the Assertion inside it: each signature is judged under the Issuer of the element that carries it
         ri = m.get('r_issuer')
         r_issuer = issuer if ri is None else (IDPS[ri] if ri < len(fed) else UNKNOWN)
-        r_trusted = trusted if ri is None else ([k for u, k in fed[ri] if u in ('signing', None)] if ri < len(fed) else [])
+        r_trusted = trusted if ri is None else ([k for u, k in fed[ri] if u in ('signing', None) and k != 'keyname'] if ri < len(fed) else [])
         r['issuer'] = r_issuer
         try:
             doc = build.render(r, [a], sign_response=m['key'] if m['level'] in ('response', 'both') else None,
@@ -120,7 +120,7 @@ _idps = {}
 
 def request_strategy():
     from hypothesis import strategies as st
-    kd = st.tuples(st.sampled_from(['signing', 'signing', 'encryption', None]), st.sampled_from(POOL)).map(list)
+    kd = st.tuples(st.sampled_from(['signing', 'signing', 'encryption', None]), st.sampled_from(POOL + ['keyname'])).map(list)
     fed = st.lists(st.lists(kd, max_size=3), min_size=2, max_size=3)
     msg = st.fixed_dictionaries({'issuer': st.integers(0, 3), 'key': st.sampled_from(POOL), 'keyinfo': st.sampled_from(['none', 'signer-cert', 'other-cert', 'signer-rsa']),
                                  'other': st.sampled_from(POOL), 'typ': st.sampled_from(['authn', 'logout']), 'alg': st.sampled_from(['sha1', 'sha256'])})
@@ -152,7 +152,7 @@ def run_requests(case):
                 pass
     for m in case['messages']:
         issuer = SPS[m['issuer']] if m['issuer'] < len(fed) else 'https://sp-unknown.example.org'
-        trusted = [k for u, k in fed[m['issuer']] if u in ('signing', None)] if m['issuer'] < len(fed) else []
+        trusted = [k for u, k in fed[m['issuer']] if u in ('signing', None) and k != 'keyname'] if m['issuer'] < len(fed) else []
         kind = m['keyinfo']
         if m['other'] == m['key'] and kind == 'other-cert':
             kind = 'signer-cert'
